@@ -6,11 +6,11 @@ use serde_json::json;
 use std::process::Command;
 use std::time::Instant;
 
-pub fn run_miri(seed: u64, out: &mut ExtraResult) {
+pub fn run_miri(seed: u64, default_seeds: u64, out: &mut ExtraResult) {
     let dir = std::env::var("VERIF_DIR").unwrap_or_else(|_| "/verif".into());
     let miri_dir = format!("{dir}/miri");
     let _ = std::fs::copy("/repo/Cargo.lock", format!("{miri_dir}/Cargo.lock"));
-    let nseeds: u64 = std::env::var("VERIF_MIRI_SEEDS").ok().and_then(|s| s.parse().ok()).unwrap_or(48);
+    let nseeds: u64 = std::env::var("VERIF_MIRI_SEEDS").ok().and_then(|s| s.parse().ok()).unwrap_or(default_seeds);
     let t0 = Instant::now();
     let mut ok_runs = 0u64;
     let mut checked = 0u64;
